@@ -1,6 +1,7 @@
 package main
 
 import (
+	"os"
 	"fmt"
 	"go/token"
 	"go/types"
@@ -210,7 +211,7 @@ func (x *c06) classifyFrameArg(fn *ssa.Function, a ssa.Value, at ssa.Instruction
 	a = strip(a)
 	// (G) the guarded parameter of Map, seen from its walker closure or Map itself
 	if outer := outermost(fn); x.guardOK[outer] {
-		if p := paramNamed(outer, "frame"); p != nil && isParamValue(a, p) {
+		if p := paramNamedOpt(outer, "frame", false); p != nil && isParamValue(a, p) {
 			return "G: guarded frame parameter of " + m.fnName(outer), true
 		}
 	}
@@ -368,7 +369,7 @@ func (x *c06) r2() {
 			continue
 		}
 		outer := outermost(s.fn)
-		if p := paramNamed(outer, "flags"); p != nil && x.guardOK[outer] && isParamValue(args[0], p) {
+		if p := paramNamedOpt(outer, "flags", false); p != nil && x.guardOK[outer] && isParamValue(args[0], p) {
 			c.ok("C06.R2", k, "G: guarded flags parameter of "+m.fnName(outer), m.pos(s.in.Pos()))
 			continue
 		}
@@ -781,6 +782,13 @@ func (x *c06) recovery(g *IG, ret int) {
 	}
 	c.check(mapTmpArgOK, "C06.R5", "temporary-mapping-target "+fnm, "the temporary mapping maps the frame returned by mm.AllocFrame",
 		"the temporary mapping does not map the freshly allocated frame")
+	if os.Getenv("FFC_DBG") != "" {
+		for n, in := range g.Ins {
+			if cc := callCommon(in); cc != nil {
+				fmt.Fprintf(os.Stderr, "DBG node %d %T %v callee=%v succ=%v reach=%v\n", n, in, in, m.callee(cc), g.Succ[n], g.Reach([]int{0}, nil, nil)[n])
+			}
+		}
+	}
 	// each step occurs on every path to the return, in order
 	for i, s := range steps {
 		key := fmt.Sprintf("step %d %s", i+1, fnm)
